@@ -183,7 +183,7 @@ func perturb(tree any, l int, nLevels int) []pert {
 			tm["cornerOfOrigin"] = "bottomLeft"
 		}
 	})
-	for _, f := range []float64{1.02, 0.98, 1.5, 4} {
+	for _, f := range []float64{1.006, 0.994, 1.02, 0.98, 1.5, 4} {
 		f := f
 		mod(fmt.Sprintf("cellSize-x%g", f), func(tm map[string]any) { setNum(tm, "cellSize", numOf(tm, "cellSize")*f) })
 	}
@@ -429,7 +429,7 @@ func runC14() {
 	r.Finish(map[string]any{
 		"states": states, "transitions": trans, "traces_validated_against_impl": 0, "samples": samples.L,
 		"evaluations": trans, "distinct_nontrivial": nontrivial, "outcomes": outcomes,
-		"rule":       "state = (built-in set, deepest id) for all 14 sets and all their ids, plus every single-level perturbation (matrix width/height +-1 and x2, tile width/height, tile size, origin +-1 and +2ulp per axis, corner flipped, cell size x1.02/0.98/1.5/4, variable widths, level removed, ids shifted, id string != key) of every accepted set at every level; each state is run through the real validateTileMatrixSet (in-package), the real binary (built-ins) and IsQuadTree; accepted built-ins additionally through the pixel-size observation; non-trivial = perturbed sets and accepted built-in (set, id) pairs",
+		"rule":       "state = (built-in set, deepest id) for all 14 sets and all their ids, plus every single-level perturbation (matrix width/height +-1 and x2, tile width/height, tile size, origin +-1 and +2ulp per axis, corner flipped, cell size x1.006/0.994 (just beyond the tolerance)/1.02/0.98/1.5/4, variable widths, level removed, ids shifted, id string != key) of every accepted set at every level; each state is run through the real validateTileMatrixSet (in-package), the real binary (built-ins) and IsQuadTree; accepted built-ins additionally through the pixel-size observation; non-trivial = perturbed sets and accepted built-in (set, id) pairs",
 		"exhaustive": true,
 	})
 }
